@@ -67,6 +67,9 @@ def special_docs():
     # examples built from regular expressions: the same bytes in every process
     res.append(("regex_examples", 'JSIGHT 0.3\nTYPE @rx regex\n/[a-z]{8}[0-9]{4}/\nTYPE @ry regex\n/(cat|dog|bird)-[A-F]{3}/\nTYPE @o\n{\n  "r": @rx,\n  "s": @ry,\n'
                 '  "t": [@rx]\n}\nGET /x\n  200 @o\n  404 regex\n  /[0-9]{6}/\nPOST /y\n  Request\n  {\n    "q": @ry\n  }\n  200 any\n'))
+    # parameters with escapes everywhere a quoted parameter can stand
+    res.append(("quoted_escapes", 'JSIGHT 0.3\nINFO\n  Title "The \\"Cats\\" API and \\\\fileserver"\n  Version "1.\\"2\\""\nSERVER @s // a \\ b\n  BaseUrl "http://x/\\"q\\"/y"\n'
+                'GET "/a\\\\b/c"\n  Query "q=\\"1\\"&r=2"\n  {\n    "q": 1\n  }\n  200 any\nURL /r\n  Protocol json-rpc-2.0\n  Method "get\\"x\\"now"\n    Result\n    {}\n'))
     res.append(("or_types", 'JSIGHT 0.3\nTYPE @a\n{\n  "x": @b | @c | @d\n}\nTYPE @b\n1\nTYPE @c\n"s"\nTYPE @d\ntrue\nGET /x\n  200 @a\n'))
     return res
 
@@ -115,7 +118,9 @@ def main(tier):
             texts.append(("fixture", data.decode("utf-8", "surrogateescape")))
     # documents with regular expressions once more with the library's default options (no fixed seed option)
     texts += [(k + "_default_options", t) for k, t in texts if " regex" in t][:(400 if thorough else 80)]
-    cases = [dict(rel.case("d%d" % n, t), reps=K, default_opts=k.endswith("_default_options")) for n, (k, t) in enumerate(texts)]
+    # ... and a share of the documents processed K times from ONE byte slice held in memory (kit.NewJApiFromFile)
+    texts += [(k + "_in_memory", t) for k, t in texts if ('\\' in t or k in ("quoted_escapes", "fixture")) and not k.endswith("_default_options")][:(600 if thorough else 150)]
+    cases = [dict(rel.case("d%d" % n, t), reps=K, default_opts=k.endswith("_default_options"), mem=k.endswith("_in_memory")) for n, (k, t) in enumerate(texts)]
     # phase 1: K repetitions in one process
     obs1 = harness("run", cases)
     # phase 2: fresh processes (different hash seeds), one repetition each
